@@ -558,6 +558,49 @@ where
     None
 }
 
+/// FloatSample::sample_sqrt over non-negative finite inputs: libm-exact in the std build, within
+/// 7% + 1e-18 in the no_std build (the property's tolerance for the approximation)
+fn sqrt_sweep(ctx: &Ctx, thorough: bool) -> u64 {
+    let pats: Vec<u32> = if thorough {
+        (0..0x7f80_0000u32).collect()
+    } else {
+        let mut v = Vec::new();
+        let mut b = 0u32;
+        while b < 0x7f80_0000 {
+            v.push(b);
+            v.push(b | 0x7ff);
+            b += 0x800;
+        }
+        v
+    };
+    let n = pats.len() as u64;
+    pats.par_chunks(1 << 16).for_each(|ch| {
+        guard::enter(&json!({"sys":"sqrt","bits":ch[0]}).to_string());
+        for &b in ch {
+            let x = f32::from_bits(b);
+            let got = x.sample_sqrt() as f64;
+            let r = (x as f64).sqrt();
+            let ok = if NOSTD { got >= 0.0 && (got - r).abs() <= 0.07 * r + 1e-18 } else { (got - r).abs() <= f32::EPSILON as f64 * r + 1e-300 };
+            if !ok {
+                ctx.violation("rms.sqrt", json!({"sys":"sqrt","bits":b}), format!("sample_sqrt({x:e}) = {got:e}, sqrt = {r:e} ({} build)", if NOSTD { "no_std" } else { "std" }), None);
+                break;
+            }
+            // f64: the same magnitude and a perturbed mantissa
+            for xd in [x as f64, (x as f64) * 1.000_000_123_456_789, (x as f64) * 1e-30, (x as f64) * 1e30] {
+                let g = xd.sample_sqrt();
+                let r = xd.sqrt();
+                let ok = if NOSTD { g >= 0.0 && (g - r).abs() <= 0.07 * r + 1e-18 } else { (g - r).abs() <= f64::EPSILON * r + 1e-300 };
+                if !ok {
+                    ctx.violation("rms.sqrt", json!({"sys":"sqrt64","bits":xd.to_bits().to_string()}), format!("f64 sample_sqrt({xd:e}) = {g:e}, sqrt = {r:e} ({} build)", if NOSTD { "no_std" } else { "std" }), None);
+                    return;
+                }
+            }
+        }
+        guard::leave();
+    });
+    5 * n
+}
+
 // ------------------------------------------------------------ signal adaptor
 #[cfg(not(verif_nostd))]
 fn adaptor_cases(ctx: &Ctx) -> u64 {
@@ -719,6 +762,10 @@ fn main() {
     ctx.set("drift_runs", json!(djobs.len()));
     ctx.set("drift_steps_each", json!(steps));
 
+    let sq = sqrt_sweep(ctx, ctx.thorough());
+    ctx.add_evals(sq);
+    ctx.set("sqrt_sweep_evaluations", json!(sq));
+    ctx.rule("sqrt — FloatSample::sample_sqrt over every non-negative finite f32 (thorough) / every exponent x 2^12 mantissa patterns (quick) and 4 f64 values derived from each: libm-exact (std) or within 7% + 1e-18 (no_std)");
     let ad = adaptor_cases(ctx);
     ctx.add_evals(ad);
     ctx.set("adaptor_cases", json!(ad));
